@@ -463,3 +463,36 @@ Definition rep_ok (rc : graph) (raw : list mapping) : bool :=
   forallb (fun x => existsb (fun y => set_eqb x y || existsb (fun s => set_eqb x (act s y)) A) kept) raw.
 Definition run_prune_wf (rc : graph) (raw : list mapping) : tok :=
   L [ run_prune rc raw; tbool (wfb rc); tbool (dom_ok rc raw); tbool (rep_ok rc raw) ].
+
+(** ---------- round 3: the full option surface of deduplicate_matches_with_anchor, PartialMatcher's use of it ---------- *)
+(** [host_anchor] is accepted by the Python function and deliberately ignored ("kept for API symmetry"): the model
+    takes it as an argument and ignores it too, so that a change which starts to use it is a correspondence break. *)
+Definition dedup_anchor_h {X} (key : X -> mapping) (xs : list X) (porbs : option (list (list N))) (anchor : list N)
+           (horbs : option (list (list N))) (hanchor : option (list N)) : option (list X) :=
+  dedup_anchor key xs porbs anchor horbs.
+
+(** PartialMatcher._prune_automorphic_mappings (single host): AutoEst(host, node_attrs, edge_attrs, max_iter).fit(),
+    then deduplicate_matches_with_anchor(matches, host_orbits=est.orbits, host_anchor=est.anchor_component);
+    an empty list is returned as it is *)
+Definition partial_prune {X} (key : X -> mapping) (fn : nlab -> N) (h : graph) (k : nat) (xs : list X) : option (list X) :=
+  match xs with
+  | [] => Some []
+  | _ => dedup_anchor_h key xs None [] (Some (wl_orbits (wl fn e_order h k))) (Some (wl_anchor h))
+  end.
+
+Definition run_dedup_x (p h : graph) (ms : list mapping) : tok :=
+  let xs := indexed ms in
+  let key := @snd nat mapping in
+  let ap := analyze n_exact e_order p in
+  let ah := analyze n_exact e_order h in
+  let wlh := wl_orbits (wl n_exact e_order h 10) in
+  let wlp := wl_orbits (wl n_wl e_order p 10) in
+  L [ run_dedup_wf p h ms;
+      t_idx (dedup_anchor_h key xs None [] (Some wlh) (Some (wl_anchor h)));
+      t_idx (dedup_anchor_h key xs None [] (Some (a_orbits ah)) (a_anchor ah));
+      t_idx (dedup_anchor_h key xs (Some wlp) (wl_anchor p) (Some wlh) (Some (wl_anchor h)));
+      t_idx (dedup_anchor_h key xs (Some (a_orbits ap)) [] (Some wlh) (Some (wl_anchor h)));
+      t_idx (dedup_anchor key xs (Some []) [] None);
+      t_idx (dedup_anchor key xs None [] (Some []));
+      t_idx (partial_prune key n_exact h 10 xs);
+      t_idx (partial_prune key n_exact h 1 xs) ].
